@@ -29,6 +29,15 @@ PROPS = {
         "kani": [("tables", ["iupac_order_independent", "encode_decode_consistent", "valid_base_n"])],
         "bounded": [],
     },
+    "C06": {
+        "level": "proof",
+        "verus": [("rowfrag", [None])],
+        "functions": ["is_ambiguous", "filter.keep_noconst", "filter.keep_noambig", "filter.collect_types", "filter.weight_step",
+                      "update_counts.count_pred"],
+        "kani": [("tables", ["oracle_bijective", "is_ambiguous_classification"])],
+        "bounded": [{"group": "ndarr", "name": "bounded_update_counts_2x2", "bound": "2 rows x 2 samples, symbolic bytes, flag and stored counts",
+                     "args": ["-Z", "unstable-options", "--cbmc-args", "--unwindset", "memcmp.0:18"], "timeout": 2400}],
+    },
     "C12": {
         "level": "proof",
         "verus": [("kmer", ["u64", "u128"]), ("bloom", [None])],
@@ -38,12 +47,31 @@ PROPS = {
         "kani": [("nthash", None)],
         "bounded": [],
     },
+    "C04": {
+        "level": "proof",
+        "verus": [("alnwriter", [None]), ("repeatfrag", ["u64"])],
+        "functions": ["AlnWriter::new", "AlnWriter::total_size", "AlnWriter::fill_fwd_bases", "AlnWriter::fill_contig",
+                      "AlnWriter::write_split_kmer", "AlnWriter::finalise", "AlnWriter::get_seq", "is_ambiguous",
+                      "RefSka::new.repeat_coords"],
+        "kani": [("tables", ["oracle_bijective", "rc_iupac_complement", "rc_iupac_fixed_points", "is_ambiguous_classification"])],
+        "bounded": [],
+    },
     "C05": {
         "level": "proof",
         "verus": [("idxcheck", [None])],
         "functions": ["IdxCheck::new", "IdxCheck::iter", "Iterator::next"],
         "kani": [("u8base", None)],
         "bounded": [],
+    },
+    "C14": {
+        "level": "other",
+        "explanation": "BOUNDED check only (never counted as proved): Kani on the real MergeSkaArray::variant_dist with two symbolic columns of length 3 over {A,C,G,T,-} and a symbolic constant in 0..3, exact f64 comparison, against 'SNP count over shared k-mers / one-sided over union'; plus the complete enumeration of base_to_prob weights (C15 harness). distance() (rayon) and the --min-freq pre-filter bookkeeping in generic_modes::distance are outside the decided kernel.",
+        "verus": [],
+        "functions": [],
+        "kani": [("tables", ["oracle_bijective", "base_to_prob_weights"])],
+        "bounded": [{"group": "ndarr", "name": "bounded_variant_dist_len3", "bound": "columns of length 3 over {A,C,G,T,-}, constant in {0,1,2,3}",
+                     "args": ["-Z", "unstable-options", "--cbmc-args", "--unwindset", "memcmp.0:18"], "timeout": 1500}],
+        "bounded_in_quick": True,
     },
     "C15": {
         "level": "proof",
